@@ -1,3 +1,4 @@
 import Oracle.C06pc
 import Oracle.Main
 import Oracle.C04Build
+import Oracle.C07Walk
